@@ -74,12 +74,13 @@ class Tx:
         """(earliest, latest, action)"""
         if self.recv_cancelled:
             return 0, 0, "cancelled"
+        # instants (last, now, WaitUntil) are recorded in microseconds; intervals are whole milliseconds
         if self.k < len(self.iv):
-            e = self.last + self.iv[self.k]
+            e = self.last + self.iv[self.k] * 1000
             if self.send_cancelled:
-                return e, self.last + sum(self.iv[self.k:]) + self.fin, "quiet"
+                return e, self.last + (sum(self.iv[self.k:]) + self.fin) * 1000, "quiet"
             return e, e, "retransmit"
-        e = self.last + self.fin
+        e = self.last + self.fin * 1000
         return e, e, "timedout"
 
 
@@ -233,11 +234,13 @@ class Model:
             tx = self.txs.get(ev["tid"])
             self.need(ev["found"] == (tx is not None), "configure: found disagrees with outstanding-ness")
             if tx is not None:
-                iv = [ev["rto"] << i for i in range(ev["n"])]
+                # durations are recorded in microseconds; the agent keeps whole milliseconds:
+                # interval i = floor(rto * 2^i), TCP total = floor(last + sum)
+                iv_us = [ev["rto_us"] << i for i in range(ev["n"])]
                 if self.tcp:
-                    tx.iv, tx.fin = [], ev["last"] + sum(iv)
+                    tx.iv, tx.fin = [], (ev["last_us"] + sum(iv_us)) // 1000
                 else:
-                    tx.iv, tx.fin = iv, ev["last"]
+                    tx.iv, tx.fin = [x // 1000 for x in iv_us], ev["last_us"] // 1000
         elif op == "set_remote":
             self.remote = ev["cred"]
         elif op == "observe":
